@@ -45,6 +45,8 @@ Val(n) == CASE n = "i1" -> Sc("int", 10000) [] n = "i2" -> Sc("int", 20000) [] n
             \* one-shot lazy iterables (a reversed-iterator, a map object: the kinds the comparison documents as list generators) yielding 1, 2: the documented equality materialises them,
             \* so they stand for the list of their elements; each use gets a FRESH iterator
             [] n \in {"R12", "M12"} -> V("list", 0, "-", "-", <<Sc("int", 10000), Sc("int", 20000)>>)
+            [] n = "T123" -> V("tuple", 0, "-", "-", <<Sc("int", 10000), Sc("int", 20000), Sc("int", 30000)>>)
+            [] n = "L1a" -> V("list", 0, "-", "-", <<Sc("int", 10000), St("abc", "plain")>>)
             [] n = "T1a" -> V("tuple", 0, "-", "-", <<Sc("int", 10000), St("abc", "plain")>>)
             [] OTHER -> Sc("none", 0)
 
@@ -97,6 +99,7 @@ EqUsed(l, r) == IF "tolerance_expected_only" \in Flags THEN EqExpectedOnly(l, r)
 StrRank(v) == IF v.core = "" THEN 0 ELSE IF v.core = "abd" THEN 4
               ELSE IF v.deco = "upper" THEN 1 ELSE IF v.deco = "plain" THEN 2 ELSE 3
 RECURSIVE Ord(_, _)
+RECURSIVE SeqOrd(_, _, _)
 \* "inc": the operands are comparable without error but NONE of <, <=, >, >= holds (NaN; sets that are not nested)
 SubsetOf(l, r) == \A i \in 1..Len(l.e) : \E j \in 1..Len(r.e) : PyEq(l.e[i], r.e[j])
 Ord(l, r) == IF (l.k = "nan" /\ (Numeric(r) \/ r.k = "nan")) \/ (r.k = "nan" /\ Numeric(l)) THEN "inc"
@@ -107,12 +110,11 @@ Ord(l, r) == IF (l.k = "nan" /\ (Numeric(r) \/ r.k = "nan")) \/ (r.k = "nan" /\ 
              ELSE IF l.k = "str" /\ r.k = "str"
                   THEN (IF StrRank(l) < StrRank(r) THEN "lt" ELSE IF StrRank(l) = StrRank(r) THEN "eq" ELSE "gt")
              ELSE IF l.k = r.k /\ l.k \in {"list", "tuple"}
-                  THEN (IF l.e = <<>> /\ r.e = <<>> THEN "eq" ELSE IF l.e = <<>> THEN "lt" ELSE IF r.e = <<>> THEN "gt"
-                        ELSE IF ~PyEq(l.e[1], r.e[1]) THEN Ord(l.e[1], r.e[1])
-                        ELSE IF Len(l.e) = 1 /\ Len(r.e) = 1 THEN "eq"
-                        ELSE IF Len(l.e) = 1 THEN "lt" ELSE IF Len(r.e) = 1 THEN "gt"
-                        ELSE Ord(l.e[2], r.e[2]))
+                  THEN SeqOrd(l, r, 1)
              ELSE "U"
+\* lexicographic: the first position where the elements differ decides, a proper prefix is smaller
+SeqOrd(l, r, i) == IF i > Len(l.e) /\ i > Len(r.e) THEN "eq" ELSE IF i > Len(l.e) THEN "lt" ELSE IF i > Len(r.e) THEN "gt"
+                   ELSE IF ~PyEq(l.e[i], r.e[i]) THEN Ord(l.e[i], r.e[i]) ELSE SeqOrd(l, r, i + 1)
 Truthy(v) == CASE v.k = "nan" -> TRUE [] v.k = "set" -> v.e # <<>> [] Numeric(v) -> v.x # 0 [] v.k = "str" -> v.core # "" [] v.k \in {"list", "tuple"} -> v.e # <<>>
                [] v.k = "dict" -> TRUE
                [] OTHER -> FALSE
@@ -161,7 +163,10 @@ TypeExprs == {"t:int", "t:float", "t:str", "t:list", "t:bool", "t:tuple", "t:dic
 \* only the complement law is demanded there
 ElemsAre(v, k) == \A i \in 1..Len(v.e) : v.e[i].k = k
 NoElemIs(v, k) == \A i \in 1..Len(v.e) : v.e[i].k # k
-ListOf(v, k) == IF v.k # "list" THEN "F" ELSE IF ElemsAre(v, k) THEN "T" ELSE IF NoElemIs(v, k) THEN "F" ELSE "X"
+\* a list with an element of another type is not a list of k; lists mixing ints and floats are left unspecified (pedal
+\* deliberately lets the two number types stand in for each other), there only the complement law is demanded
+ListOf(v, k) == IF v.k # "list" THEN "F" ELSE IF ElemsAre(v, k) THEN "T"
+                ELSE IF k \in {"int", "float"} /\ (\A i \in 1..Len(v.e) : v.e[i].k \in {"int", "float"}) THEN "X" ELSE "F"
 TypeMatch(v, t) ==
     CASE t \in {"t:int", "s:int"} -> B(v.k = "int") [] t = "t:float" -> B(v.k \in {"float", "nan"}) [] t \in {"t:str", "s:str"} -> B(v.k = "str")
       [] t = "t:bool" -> B(v.k = "bool") [] t \in {"t:list", "s:list"} -> B(v.k = "list") [] t = "t:tuple" -> B(v.k = "tuple")
